@@ -129,6 +129,7 @@ type dialer struct {
 	addr      string
 	selfProto uint16
 	peerProto uint16
+	closed    bool // under listeners.mx
 }
 
 func (d *dialer) Dial() (transport.Pipe, error) {
@@ -148,6 +149,10 @@ func (d *dialer) Dial() (transport.Pipe, error) {
 	for {
 		var l *listener
 		var ok bool
+		if d.closed {
+			listeners.mx.Unlock()
+			return nil, mangos.ErrClosed
+		}
 		if l, ok = listeners.byAddr[d.addr]; !ok || l == nil {
 			listeners.mx.Unlock()
 			return nil, mangos.ErrConnRefused
@@ -181,6 +186,16 @@ func (d *dialer) Dial() (transport.Pipe, error) {
 	close(server.readyq)
 	close(client.readyq)
 	return client, nil
+}
+
+// Close ends a Dial that is waiting for its listener to accept.  The core
+// dialer calls it when it is closed; nothing is dialed afterwards.
+func (d *dialer) Close() error {
+	listeners.mx.Lock()
+	d.closed = true
+	listeners.cv.Broadcast()
+	listeners.mx.Unlock()
+	return nil
 }
 
 func (*dialer) SetOption(string, interface{}) error {
